@@ -20,8 +20,8 @@ def c02(tier):
         Harness('VHarnessAmountChecked', 'cashu', ['cashu/zz_verif_cashu.go'], bounds='<= 4 outputs, amounts full 64 bit', must_reach=('ok', 'overflow')),
     ]
 
-MINT_FILES = ['mint/zz_verif_env.go', 'mint/zz_verif_swap.go', 'mint/zz_verif_melt.go', 'mint/zz_verif_quotes.go', 'mint/zz_verif_minttokens.go', 'mint/zz_verif_query.go', 'mint/storage/sqlite/zz_verif_db.go']
-MINT_MODELS = ('std', 'crypto', 'json', 'sql', 'mint')
+MINT_FILES = ['mint/zz_verif_env.go', 'mint/zz_verif_swap.go', 'mint/zz_verif_melt.go', 'mint/zz_verif_quotes.go', 'mint/zz_verif_minttokens.go', 'mint/zz_verif_query.go', 'mint/zz_verif_hook.go', 'mint/zz_verif_crash.go', 'mint/storage/sqlite/zz_verif_db.go']
+MINT_MODELS = ('std', 'crypto', 'json', 'sql', 'mint', 'threads')
 MINT_ASSUME = COMMON_ASSUME + [
     'keysets of the harness mint hold the denominations {1, 2, 2^63} only (the 60-entry tables are cut; the arithmetic kernels are checked at full width separately)',
     'input_fee_ppk < 2^32 per keyset',
@@ -62,7 +62,21 @@ def c16(tier):
         mint_h('VHarnessMeltQuoteC16', 'melt quote: invoice < 2^50 msat, optional MPP, melt limit full 64 bit', must_reach=('melt-quote-accepted', 'melt-quote-refused')),
     ]
 
+def c07(tier):
+    kw = dict(sched=True)
+    hs = []
+    for op, b in (('Swap', '1 genuine input, 1 output'), ('Mint', 'PAID quote, 1 output'), ('Melt', '1 genuine input, backend script <= 2 answers'),
+                  ('Poll', 'PENDING quote with 1 locked input, 1 backend answer'), ('Rotate', 'one stored keyset, arbitrary new fee')):
+        hs.append(mint_h('VHarnessCrash' + op, op + ': ' + b + '; crash before any one of its storage / Lightning calls (position symbolic), restart, follow-up probes', must_reach=('struck', 'not-struck'), **kw))
+        hs.append(mint_h('VHarnessFault' + op, op + ': ' + b + '; storage error injected at any one of its storage calls (position symbolic), follow-up probes', must_reach=('struck', 'not-struck'), **kw))
+    return hs
+def c05(tier):
+    return [mint_h('VHarnessMeltC05', 'melt + 1 poll: 1..2 genuine inputs, backend script <= 3 answers, poll through quote state or checkstate', must_reach=('poll-1',)),
+            mint_h('VHarnessMeltC05Polls', 'melt + 2 polls: backend script <= 4 answers', must_reach=('poll-2',))]
+
 PROPS = {
+    'C05': dict(harnesses=c05, level='bounded symbolic verification over scripted Lightning answers', assumptions=MINT_ASSUME, outside=['the real LND/CLN adapters (network code); the property is stated at the lightning.Client interface']),
+    'C07': dict(harnesses=c07, level='bounded symbolic verification with the crash / fault position as a solver variable', assumptions=MINT_ASSUME + ['one MintDB method call is atomic and durable (SQLite transaction; db.SetMaxOpenConns(1))', 'restart = fresh Mint object over the surviving tables with the same keysets (LoadMint itself: file system, migrations are outside)'], outside=['torn writes inside one SQLite transaction, crashes inside LoadMint/migrations, file-system faults']),
     'C06': dict(harnesses=c06, level='bounded symbolic verification: failure atomicity (whole-database comparison) and implicit-panic obligations on every path', assumptions=MINT_ASSUME, outside=[]),
     'C15': dict(harnesses=c15, level='bounded symbolic verification', assumptions=MINT_ASSUME, outside=[]),
     'C16': dict(harnesses=c16, level='bounded symbolic verification', assumptions=MINT_ASSUME, outside=[]),
